@@ -21,8 +21,13 @@ obligations; `U` is the regenerated `UNSAFE_FOR_*` byte set):
   ASCII, kept escapes and raw non-ASCII characters all interrupt a run) are cut into
   well-formed UTF-8 sequences — emitted as the character — and ill-formed bytes — emitted
   as upper-case escapes again;
-* `NON_PRINTABLE_RE.sub`: a decoded C1 control (U+0080–U+009F) or whitespace character beyond
-  ASCII (U+00A0, U+1680, U+2000–U+200A, U+2028, U+2029, U+202F, U+205F, U+3000) is re-escaped;
+* `NON_PRINTABLE_RE.sub` (applied by `unquote` to the whole result): a C1 control
+  (U+0080–U+009F) or whitespace character beyond ASCII (U+00A0, U+1680, U+2000–U+200A, U+2028,
+  U+2029, U+202F, U+205F, U+3000) is escaped — whether it was decoded from escapes (`flush`)
+  or was already there raw (`escapeRaw`: the raw character is treated as if the input had
+  spelled it with escapes; by the self-synchronisation of UTF-8 its bytes are decoded to the
+  same character again whatever pending bytes surround them, `Lemmas/QuoteRoundTrip.lean`
+  `segment_insert`, and `flush` escapes it);
 * `normalize_space`: a space (raw or decoded) becomes `%20`.
 
 UTF-8 decoding is Lean core's `ByteArray.utf8DecodeChar?` (strict: no overlongs, no
@@ -151,8 +156,16 @@ def assemble : List Item → List UInt8 → List Tok
 
 def unquoteToks (U : List UInt8) (ts : List Tok) : List Tok := assemble (ts.map (itemOf U)) []
 
+/-- a raw character that `NON_PRINTABLE_RE` escapes, spelled with escapes -/
+def escTok : Tok → List Tok
+  | .raw c => if staysEscaped c then (utf8 c).map escOfByte else [.raw c]
+  | t => [t]
+
+/-- `NON_PRINTABLE_RE.sub(_requote_match, …)` on the raw characters of the input -/
+def escapeRaw (ts : List Tok) : List Tok := ts.flatMap escTok
+
 /-- `unquote(s, only_printable=True, normalize_space=True, unsafe=U, lossless=True)` -/
-def safelyUnquote (U : List UInt8) (s : Str) : Str := render (unquoteToks U (tokens s))
+def safelyUnquote (U : List UInt8) (s : Str) : Str := render (unquoteToks U (escapeRaw (tokens s)))
 
 /-! ## safely_quote -/
 
